@@ -28,7 +28,7 @@ PROPS = {
              "validated by the run); the syntactic lock-fact extractor. IPv6 pools are outside the model.",
         rule="pool construction for /16../32 on 7 base addresses (aligned, unaligned, top of address space), malformed subnets; "
              "bounded-exhaustive alloc/release sequences on /30 (3 sessions) and /29 (7 sessions); random sequences with more sessions than addresses; "
-             "32-goroutine allocate/release/re-allocate runs and 16-goroutine contention on one session id; non-trivial = at least one successful allocation",
+             "32-goroutine allocate/release/re-allocate runs and 16-goroutine contention on one session id; non-trivial = at least one successful allocation Also (system level): sessions on a /29 come and go on a running agent (deletion, 'context not found'), the allocating rule removed / updated without UE IP, establishments refused after the allocation; after every step the pool holds exactly one address per live session that was given one.",
         trusted_base=[GO_LIBS, "sync.Mutex / Go memory model", "net.ParseCIDR"],
         assumptions=["IPv4 pools only"],
     ),
@@ -43,7 +43,7 @@ PROPS = {
              "alloc_full cannot be exercised on the real 2^32-1 modulus (T2 never sees a refusal); it rests on the theorem and the T1 tie.",
         rule="cursor at {0,1,2,M-3,M-2,M-1} x 5 used-set shapes; random alloc/free/query sequences near and across the wrap; 32-goroutine concurrent "
              "allocation with release; SEID selection with constant, cyclic, zero, colliding (98..101 collisions) and random small sources; "
-             "non-trivial = at least one identifier granted",
+             "non-trivial = at least one identifier granted Also (system level): a session with a UP-chosen TEID next to sessions whose control plane chose the same number under another N3 address, on the same or another association; after every step the generator's in-use count equals the UP-chosen TEIDs of live sessions.",
         trusted_base=[GO_LIBS, "sync.Mutex / Go memory model"],
         assumptions=["distinct associations draw independent SEIDs (uniqueness is per association, as the property states)"],
     ),
@@ -59,7 +59,7 @@ PROPS = {
         rule="grammar strings (10 protocol forms x 18 address forms x 11 port forms, covering sample in quick / product in thorough, both clause orders) "
              "x UE strings; every single-token corruption (truncate/drop/duplicate/swap/replace) of a spread of them; token soup with odd white space; "
              "edge strings; PDR-level SDF on uplink and downlink PDRs; random PFD tables with 1-3 applications, 0-3 descriptions each, malformed entries "
-             "and unknown IDs; every case here reaches a distinct parse outcome, so distinct cases count as non-trivial",
+             "and unknown IDs; every case here reaches a distinct parse outcome, so distinct cases count as non-trivial Also (system level): PFD Management Requests (accepted and refused) interleaved with establishments naming provisioned / replaced / unknown application IDs on two associations.",
         trusted_base=[GO_LIBS, "go-pfcp IE constructors/accessors", "net.ParseCIDR, strconv.ParseUint, strings.Fields (hand models)"],
         assumptions=["IPv4 only", "PFD Management message handling is exercised at system level, not here"],
     ),
@@ -105,7 +105,8 @@ PROPS = {
              "(semantics of pkg/fake_bess). Envelope: IPv4, distinct rule IDs per session, distinct match keys of live PDRs, key-preserving updates.",
         rule="rounds of: seeded leftovers, start, two associations, a random history of 4-13 requests (establish 8 session shapes incl. SDF/app filters, CHOOSE F-TEID, UE-IP "
              "allocation, buffering FARs; handover with/without end marker; create/update/remove rules; unknown session; wrong node ID; CP F-SEID change), then SIGKILL; "
-             "non-trivial = an accepted request",
+             "non-trivial = an accepted request. Also: updates naming FAR / QER / PDR IDs the session does not have (skipped, nothing written); "
+             "modifications refused after they removed a non-last rule",
         trusted_base=[GO_LIBS, "go-pfcp IE codecs", "fake BESS server (harness/internal/sysh/bess.go)", "loopback UDP/gRPC"],
         assumptions=["IPv4 only", "distinct live PDRs have distinct match keys", "an Update PDR/QER does not change the rule's table key"],
     ),
@@ -204,7 +205,7 @@ PROPS = {
              "modelled only as far as the store and application table go. Trusted: Lean kernel + standard axioms, go-pfcp, loopback UDP.",
         rule="300+ requests over 3 associations with interleaved sessions: all request types, sequence numbers from {1,2,2^23,2^24-1,...,random 24-bit}, accepted and "
              "rejected mixes (wrong node ID, unknown / foreign session, unknown Remove ID, malformed PFD), CP F-SEID changes, releases and re-associations, "
-             "response-type messages; non-trivial = an accepted request or an answered heartbeat",
+             "response-type messages; non-trivial = an accepted request or an answered heartbeat Also: flow descriptions naming IPv6 networks; a third world with the heartbeat timer on in which the peer answers every heartbeat of the agent twice, followed by heartbeat / establishment / deletion requests.",
         trusted_base=[GO_LIBS, "go-pfcp codecs", "loopback UDP sockets", "fake BESS server"],
         assumptions=["mandatory IEs well-formed (malformed ones are C01's)"],
     ),
@@ -220,7 +221,7 @@ PROPS = {
              "Trusted: Lean kernel + standard axioms, hooks VerifStats, prometheus text format, timers for the timeout/heartbeat cases.",
         rule="three configurations (plain / read timeout 1 s / heartbeat 250 ms) x rounds of: associate, 1-3 sessions (CHOOSE F-TEID + UE-IP allocation, QER shapes), "
              "establishments refused half-way (after address/TEID acquisition), modifications rejected after their create/update step, then one way to end, "
-             "then stats; plus 20+ attach/detach cycles on a /29 pool with refused attaches; non-trivial = an accepted request or an observation",
+             "then stats; plus 20+ attach/detach cycles on a /29 pool with refused attaches; non-trivial = an accepted request or an observation Also: the rule that made the UP allocate the UE address is removed or updated without the UE IP Address IE before the session ends; modifications refused after removing non-last rules; and UP4 rounds (attach / idle with forwarding parameters kept / resume / detach by deletion, 'context not found' or association release) where, whenever no session is live, the plug-in's pools must be full, its maps empty and the switch hold only the interfaces entries.",
         trusted_base=[GO_LIBS, "go-pfcp codecs", "fake BESS server", "hook accessors (verif_hooks.go)", "OS timers"],
         assumptions=["one address per session (the pool is keyed by SEID)"],
         timeout={"quick": 900, "thorough": 7200},
@@ -238,7 +239,7 @@ PROPS = {
              "proved; message.Parse of go-pfcp is trusted to return or fail (exercised by the raw stream). Quick tier samples 1/6 of the mutations outside the state "
              "'session'; thorough runs all of them in all states.",
         rule="16 templates x every IE position x 10-12 mutations (+ flow-description prefixes) x 6 states (full in state 'session', sampled elsewhere in quick); 3000 raw datagrams "
-             "with a liveness barrier every 50; non-trivial = a case that was answered",
+             "with a liveness barrier every 50; non-trivial = a case that was answered Also: (bounce) with the agent's heartbeats on, the peer's socket is closed for 180 ms so that a Heartbeat Request of the agent bounces (ICMP port unreachable), then the peer is back on the same address and port and must be answered; (choosemod) establishment, a modification creating / updating a PDR with a CHOOSE F-TEID, deletion, then a CHOOSE establishment on another association must be answered.",
         trusted_base=[GO_LIBS, "go-pfcp message.Parse", "loopback UDP", "fake BESS server"],
         assumptions=[],
         timeout={"quick": 1500, "thorough": 20000},
@@ -255,7 +256,7 @@ PROPS = {
              "unimplemented); the real 20 s interval is only exercised as 'repeats inside it are suppressed' in quick. The UP4 digest path shares notifier and "
              "handleDigestReport; its transport is covered with C04.",
         rule="4 notifier runs x 500 calls over 6 F-SEIDs with sleeps around the interval boundary; 20 sessions (6 FAR action classes incl. notify / buffer-only / "
-             "forward / drop, no downlink PDR, dangling FAR) x first report, repeats, unknown session, deleted session; non-trivial = a forwarded notification",
+             "forward / drop, no downlink PDR, dangling FAR) x first report, repeats, unknown session, deleted session; non-trivial = a forwarded notification Also: a CP F-SEID change by modification before the first report of a third of the sessions.",
         trusted_base=[GO_LIBS, "OS clock", "unixpacket socket", "go-pfcp codecs"],
         assumptions=["monotone clock", "one association"],
     ),
@@ -286,7 +287,7 @@ PROPS = {
         note="partial: the Go scheduler, fairness, timers and sockets are not modelled; the tie from the skeleton to the real interleavings is the two syntactic facts "
              "and sampling by repetition. The model deletes sessions from a shared list, so 'exactly once' rests on the once-guard (stated).",
         rule="scripts stop / stop-inflight / release+stop / release / timeout / hbdead / timeout+hbdead / hbdead+stop / release+release x {0,1,3} associations x "
-             "0-2 sessions each x repetitions with random microsecond offsets; non-trivial = every run",
+             "0-2 sessions each x repetitions with random microsecond offsets; non-trivial = every run Also: first-datagram-release+stop: 250 (3000) new peers whose first datagram is an Association Release Request, each then setting an association up (retransmitted like a real peer), then Stop.",
         trusted_base=[GO_LIBS, "OS scheduler/timers", "fake BESS command log"],
         assumptions=["fair scheduling (a runnable goroutine eventually runs)"],
         timeout={"quick": 900, "thorough": 7200},
